@@ -1031,6 +1031,10 @@ def child_keeps_only_own_layer(ctx, rep, R):
             if vals and isinstance(vals[0], (ast.ListComp, ast.GeneratorExp)) and \
                     len(vals[0].generators) == 1 and norm(vals[0].elt) == norm(vals[0].generators[0].target):
                 src = iter_source(vals[0].generators[0].iter)[0]
+        if isinstance(src, (ast.ListComp, ast.GeneratorExp)) and len(src.generators) == 1 and \
+                norm(src.elt) == norm(src.generators[0].target):
+            # the same selection written in the loop header itself
+            src = iter_source(src.generators[0].iter)[0]
         if isinstance(src, ast.Call) and isinstance(src.func, ast.Attribute) and \
                 src.func.attr in ('keys', 'copy') and not src.args:
             src = src.func.value
